@@ -1549,4 +1549,9 @@ mod tests {
             panic!("block ranges ({self}) don't contain {}", range.display());
         }
     }
+
+    #[cfg(lumina_verif)]
+    mod verif_native {
+        include!(concat!(env!("LUMINA_VERIF_DIR"), "/native/node/syncer.rs"));
+    }
 }
